@@ -97,6 +97,21 @@ def formal_sum_dom(ctx, root, dom, summand):
     for d in reg:
         if d.space is root and z3.eq(d.dom, dom) and z3.eq(d.summand, summand):
             return d.sym, d
+    if (z3.is_int_value(summand) or z3.is_rational_value(summand)) and z3.is_true(z3.simplify(summand == 0)):
+        # a sum of zeros is zero (sum_linear with coefficient 0)
+        zero = z3.IntVal(0) if z3.is_int(summand) else z3.RealVal(0)
+        return zero, SumDef(zero, root, dom, summand, [])
+    # sum_congr_dom: universally equivalent domain and summand => the same sum (checked without assumptions)
+    for d in reg:
+        if d.space is not root or d.summand.sort() != summand.sort():
+            continue
+        s_ = z3.Solver()
+        s_.set("timeout", 800)
+        s_.add(z3.Or(dom != d.dom, z3.And(dom, summand != d.summand)))
+        if s_.check() == z3.unsat:
+            nd = SumDef(d.sym, root, dom, summand, d.rest_idx)
+            reg.append(nd)
+            return d.sym, nd
     ps = _params([dom, summand], [root.u])
     sort = z3.IntSort() if z3.is_int(summand) else z3.RealSort()
     if z3.is_false(dom):
